@@ -16,6 +16,7 @@ trees:
   ['name', i]                         defined name i (scalar if single cell, else like 'rng')
   ['bin', op, x, y]  ['neg', x]  ['fn', NAME, arg, ...]
   ['uni', a, b]                      bracketed union of two references as ONE aggregator argument
+  ['undef', NAME]                    a name nobody defines (evaluates to UNSURE here)
   ['fname', i, tree]                 name i of spec['fnames'], defined by the formula `tree` (carried along at every use)
 Functions: SUM MIN MAX COUNT AVERAGE LARGE SMALL IF IFERROR ISERROR ISNA AND OR LEN LEFT UPPER INDEX.
 
@@ -229,6 +230,8 @@ def ev(env, t):
         b, s, r1, c1, r2, c2 = env.names[t[1]]['rect']
         assert (r1, c1) == (r2, c2), 'multi-cell name used as a scalar'
         return env.get((b, s, r1, c1))
+    if k == 'undef':
+        return UNSURE  # an undefined name: #NAME? or #REF! (C14 owns which); only differential oracles look at such cells
     if k == 'fname':
         # a name defined by a formula (['fname', i, <its tree>]); a value supplied for the name replaces the formula
         if t[1] in env.fname_over:
